@@ -2,8 +2,12 @@ package props
 
 import (
 	"fmt"
+	"go/ast"
 	"go/token"
 	"go/types"
+	"strings"
+
+	"golang.org/x/tools/go/cfg"
 
 	"golang.org/x/tools/go/ssa"
 
@@ -159,3 +163,108 @@ func c12patchTarget(c *core.Check) {
 }
 
 var _ = core.Module
+
+// c12freshName: a conflicting file is "kept under a fresh, unique name". Rule (go/cfg of Feed): every store
+// `fm.index[K] = len(fm.files)` whose key K was built in Feed itself (a renamed file, not the submitted name) is only
+// reachable through the not-present branch of a comma-ok lookup of fm.index[K] made after the last assignment to K.
+func c12freshName(c *core.Check) {
+	fd := c.Prog.FuncDecl("generator", "FileManager.Feed")
+	key := "generator.(FileManager).Feed/fresh-name"
+	if fd == nil {
+		c.Unknown("anchor", "generator.(FileManager).Feed", "", "missing")
+		return
+	}
+	info := c.Prog.Pkg("generator").TypesInfo
+	g := rules.CFG(info, fd.Body, nil)
+	// keys assigned from a formatted string inside Feed
+	built := map[string]bool{}
+	ast.Inspect(fd.Body, func(n ast.Node) bool {
+		as, ok := n.(*ast.AssignStmt)
+		if !ok || len(as.Lhs) != 1 || len(as.Rhs) != 1 {
+			return true
+		}
+		if call, ok := as.Rhs[0].(*ast.CallExpr); ok {
+			if fn := rules.Callee(info, call); fn != nil && fn.Pkg() != nil && fn.Pkg().Path() == "fmt" && fn.Name() == "Sprintf" {
+				built[rules.ExprString(as.Lhs[0])] = true
+			}
+		}
+		return true
+	})
+	n := 0
+	for k := range built {
+		// the store under this key
+		var store ast.Node
+		ast.Inspect(fd.Body, func(nd ast.Node) bool {
+			if as, ok := nd.(*ast.AssignStmt); ok && len(as.Lhs) == 1 {
+				if ix, ok := as.Lhs[0].(*ast.IndexExpr); ok && rules.ExprString(ix.X) == "fm.index" && rules.ExprString(ix.Index) == k {
+					store = as
+				}
+			}
+			return true
+		})
+		if store == nil {
+			continue
+		}
+		n++
+		// flag variables of comma-ok lookups of fm.index[k]
+		okVars := map[string]bool{}
+		ast.Inspect(fd.Body, func(nd ast.Node) bool {
+			if as, ok := nd.(*ast.AssignStmt); ok && len(as.Lhs) == 2 && len(as.Rhs) == 1 {
+				if ix, ok := as.Rhs[0].(*ast.IndexExpr); ok && rules.ExprString(ix.X) == "fm.index" && rules.ExprString(ix.Index) == k {
+					okVars[rules.ExprString(as.Lhs[1])] = true
+				}
+			}
+			return true
+		})
+		type st struct {
+			b   int32
+			est bool
+		}
+		seen := map[st]bool{}
+		bad := false
+		var visit func(b *cfg.Block, est bool)
+		visit = func(b *cfg.Block, est bool) {
+			if seen[st{b.Index, est}] {
+				return
+			}
+			seen[st{b.Index, est}] = true
+			for _, nd := range b.Nodes {
+				if nd == store && !est {
+					bad = true
+				}
+				if as, ok := nd.(*ast.AssignStmt); ok && len(as.Lhs) == 1 && rules.ExprString(as.Lhs[0]) == k {
+					est = false // a new candidate name
+				}
+			}
+			if len(b.Succs) == 2 && len(b.Nodes) > 0 {
+				if cond, ok := b.Nodes[len(b.Nodes)-1].(ast.Expr); ok {
+					t := strings.ReplaceAll(rules.ExprString(cond), " ", "")
+					for v := range okVars {
+						if t == "!"+v {
+							visit(b.Succs[0], true)
+							visit(b.Succs[1], est)
+							return
+						}
+						if t == v {
+							visit(b.Succs[0], est)
+							visit(b.Succs[1], true)
+							return
+						}
+					}
+				}
+			}
+			for _, s := range b.Succs {
+				visit(s, est)
+			}
+		}
+		if len(g.Blocks) > 0 {
+			visit(g.Blocks[0], false)
+		}
+		c.Decide(!bad && len(okVars) > 0, "fresh-name-not-taken", fmt.Sprintf("%s/%s", key, k), c.Prog.Rel(store.Pos()),
+			"the name "+k+" is stored only after a lookup showed it is not in the index",
+			"the renamed file is stored under "+k+" without checking that this name is free: a file submitted under that very name is overwritten in the index and two files of the same name are emitted")
+	}
+	if n == 0 {
+		c.Unknown("fresh-name-not-taken", key, c.Prog.Rel(fd.Pos()), "no store of a generated name into fm.index found")
+	}
+}
